@@ -16,14 +16,24 @@ inductive T where
   | signable (hot : T) (seq per : Nat)
   | body (n : Nat)
   | h (x : T)
+  /-- the same bytes with the last one cut off -/
+  | trunc (x : T)
+  /-- the hash of the block's body segments: `segs 0` as built, `segs n` after re-encoding -/
+  | segs (n : Nat)
 deriving DecidableEq, Repr
+
+def tlen : T → Nat
+  | .atom _ => 32 | .inp _ _ _ _ => 32 | .vpk _ => 32 | .vproof _ _ => 80 | .vout _ _ => 64
+  | .kpk _ => 32 | .ksg _ _ _ => 448 | .epk _ => 32 | .esg _ _ => 64 | .signable _ _ _ => 48
+  | .body _ => 300 | .h _ => 32 | .trunc x => tlen x - 1 | .segs _ => 32
 
 def skOf : T → Nat | .atom n => n | _ => 0
 
 /-- `lead` = the leadership fact for the genuine output `genuineOut` (a matter of C37/C38:
     supplied by the implementation run); `builtFields` fixes the numbering of serialisations. -/
 def sym (lead : Bool) (genuineOut : T) (builtFields : Option (Fields T)) : Prims T :=
-  { mkInput := fun tp slot nonce eta => T.inp tp slot (skOf nonce) eta
+  { len := tlen
+    mkInput := fun tp slot nonce eta => T.inp tp slot (skOf nonce) eta
     vrfPk := fun sk => T.vpk (skOf sk)
     vrfProve := fun sk i => (T.vproof (skOf sk) i, T.vout (skOf sk) i)
     vrfVerify := fun pk proof out input =>
